@@ -24,7 +24,8 @@ LEVEL = 'exploration'
 RULE = ('per-line fuzzing: every line of every form instance of every year is evaluated on mock stores whose '
         'reads return Hypothesis draws of the catalogue-declared type (both booleans, every enum member, counts '
         '0-15, amounts around the owning form\'s thresholds); a case is non-trivial when the evaluation performed '
-        'at least one read; distinct = distinct (year, line, referenced name) pairs resolved against the catalogue')
+        'at least one read; distinct = distinct (year, line, referenced name) pairs resolved against the catalogue'
+        ' Real returns through the real solver: an abort with KeyError / NameError / AttributeError / a missing threshold table is an unresolved name (form references made through the solver only show there).')
 ASSUMPTIONS = ['a path is reachable iff some type-correct assignment of the names it reads drives it (mock stores draw independently per name)',
                'forms absent from a year\'s catalogue count as deliberate only if not within edit distance 2 of a catalogued name and the real solver aborts with "Form X is not supported."']
 
